@@ -116,6 +116,18 @@ func genErrPos(r *rand.Rand, n int, emit func(args ...string)) {
 			}
 		}
 	}
+	// regexes that the scanner accepts and regexp.Compile rejects, written and bound, at several positions
+	for _, re := range []string{"web(", "[", "a**", "(?P<n", "\\"} {
+		bound := map[string]interface{}{"re": map[string]interface{}{"regex": re}}
+		for _, t := range []string{"a =~ $re", "SELECT v FROM cpu WHERE host =~ $re", "SELECT value FROM cpu WHERE region = 'uswest' AND host =~ $re", "SELECT v\nFROM cpu\nWHERE host !~ $re"} {
+			emit(exprCase(t, bound)...)
+		}
+		if !strings.Contains(re, "\\") {
+			for _, t := range []string{"a =~ /" + re + "/", "SELECT v FROM /" + re + "/", "SHOW MEASUREMENTS WITH MEASUREMENT =~ /" + re + "/", "SELECT v FROM m\nWHERE host =~ /" + re + "/ AND x", "SELECT v FROM m GROUP BY /" + re + "/"} {
+				emit(exprCase(t, none)...)
+			}
+		}
+	}
 	genParseExpr(r, n, emit)
 }
 
@@ -311,14 +323,72 @@ func applyParams(p *influxql.Parser, text string, params map[string]interface{})
 // position of a parse error is the position of one of the tokens of the text, as a scanner run over the whole
 // text places them (scan.ops judges those positions against an independent line/column count), the end of input
 // included. Texts with a `/` are left out: a regex literal is one token for the parser and several for a plain scan.
+// errPosMovesWithText: the position in a parse error is a position in the text that was parsed. The same
+// text behind one more line break (two more blanks) fails with the same error one line further down (two
+// characters further right on its first line). A position that is remembered from an earlier parse, or
+// counted from anything but the text at hand, does not move.
+func errPosMovesWithText(text string, params map[string]interface{}) string {
+	type entry struct {
+		name string
+		run  func(t string) error
+	}
+	mk := func(t string) *influxql.Parser {
+		p := influxql.NewParser(strings.NewReader(t))
+		if len(params) > 0 {
+			p.SetParams(params)
+		}
+		return p
+	}
+	if strings.HasPrefix(text, "'") || strings.HasPrefix(text, "\"") {
+		// a string token is reported at the rune before its quote (known finding
+		// C05-string-position-is-previous-rune); at the very start of a text there is no such rune
+		return ""
+	}
+	for _, en := range []entry{
+		{"ParseQuery", func(t string) error { _, e := mk(t).ParseQuery(); return e }},
+		{"ParseExpr", func(t string) error { _, e := mk(t).ParseExpr(); return e }},
+	} {
+		pe, ok := en.run(text).(*influxql.ParseError)
+		if !ok || pe == nil || pe.Found == "EOF" || (pe.Pos == influxql.Pos{} && pe.Message != "") {
+			continue
+		}
+		for _, sh := range []struct {
+			prefix string
+			dl, dc int
+		}{{"\n", 1, 0}, {"  ", 0, 2}} {
+			pe2, ok2 := en.run(sh.prefix + text).(*influxql.ParseError)
+			if !ok2 || pe2 == nil {
+				return fmt.Sprintf("%s(%q) fails with %q, but behind %q it gives %v", en.name, text, pe.Error(), sh.prefix, pe2)
+			}
+			want := influxql.Pos{Line: pe.Pos.Line + sh.dl, Char: pe.Pos.Char}
+			if pe.Pos.Line == 0 {
+				want.Char += sh.dc
+			}
+			if pe2.Message != pe.Message || pe2.Found != pe.Found || strings.Join(pe2.Expected, ",") != strings.Join(pe.Expected, ",") {
+				return fmt.Sprintf("%s(%q) fails with %q, but behind %q with %q", en.name, text, pe.Error(), sh.prefix, pe2.Error())
+			}
+			if pe2.Pos != want {
+				return fmt.Sprintf("%s(%q) fails at line %d, char %d (zero-based); behind %q the same error is reported at line %d, char %d instead of line %d, char %d: the position is not a position in the text at hand", en.name, text, pe.Pos.Line, pe.Pos.Char, sh.prefix, pe2.Pos.Line, pe2.Pos.Char, want.Line, want.Char)
+			}
+		}
+	}
+	return ""
+}
+
 func propErrPos(args []string) string {
 	text, err := decStr(args[0])
-	if err != nil || strings.Contains(text, "/") {
+	if err != nil {
 		return "skip"
 	}
 	params, err := decParams(args[1])
-	if err != nil || len(params) > 0 {
+	if err != nil {
 		return "skip"
+	}
+	if m := errPosMovesWithText(text, params); m != "" {
+		return m
+	}
+	if strings.Contains(text, "/") || len(params) > 0 {
+		return ""
 	}
 	starts := map[influxql.Pos]bool{}
 	sc := influxql.NewScanner(strings.NewReader(text))
